@@ -16,13 +16,14 @@ const aolKeeperPkg = "x/aol/keeper"
 const aolTypesPkg = "x/aol/types"
 
 type aolAccessor struct {
-	Fn      *ssa.Function
-	Op      string // Set | Delete | Get | Has | Iterator
-	Prefix  string // package-level prefix variable
-	KeyType string // type of the key parameter
-	ValType string // type of the value parameter / result ("" if none)
-	Family  string // Owner | Topic | Writer | Record (from the key type)
-	SO      StoreOp
+	Fn          *ssa.Function
+	Op          string // Set | Delete | Get | Has | Iterator
+	Prefix      string // package-level prefix variable
+	listValType string // list accessors: element type of the values list
+	KeyType     string // type of the key parameter
+	ValType     string // type of the value parameter / result ("" if none)
+	Family      string // Owner | Topic | Writer | Record (from the key type)
+	SO          StoreOp
 }
 
 type aolModel struct {
@@ -158,6 +159,35 @@ func buildAolModel(p *Prog) *aolModel {
 	// own prefix) are modelled the same way and are "extra": the append-only / authorization / counter rules do not constrain them.
 	// key type and value type per prefix variable
 	keyTypeOfPrefix, valTypeOfPrefix := map[string]string{}, map[string]string{}
+	// a list accessor's key and value types are the element types of the two lists it returns
+	for _, a := range m.acc {
+		if a.Op != "Iterator" && a.Op != "ReverseIterator" {
+			continue
+		}
+		res := a.Fn.Signature.Results()
+		if res.Len() != 2 {
+			continue
+		}
+		elem := func(t types.Type) string {
+			if sl, ok := t.Underlying().(*types.Slice); ok {
+				if n, ok := sl.Elem().(*types.Named); ok {
+					return n.Obj().Name()
+				}
+			}
+			return ""
+		}
+		if kt, vt := elem(res.At(0).Type()), elem(res.At(1).Type()); strings.HasSuffix(kt, "CompositeKey") && vt != "" && a.KeyType == "" {
+			a.KeyType = shortPkg(res.At(0).Type().Underlying().(*types.Slice).Elem().String())
+			a.listValType = vt
+		}
+	}
+	for _, a := range m.acc {
+		if a.listValType != "" {
+			if prev, ok := valTypeOfPrefix[a.Prefix]; ok && prev != a.listValType {
+				m.problems = append(m.problems, fmt.Sprintf("prefix %s holds %s entries but %s lists it as %s", a.Prefix, prev, FuncName(a.Fn), a.listValType))
+			}
+		}
+	}
 	for _, a := range m.acc {
 		if a.KeyType != "" {
 			if prev, ok := keyTypeOfPrefix[a.Prefix]; ok && prev != a.KeyType {
